@@ -194,6 +194,61 @@ pub fn run(ctx: &mut Ctx) {
         }
         let _ = std::fs::remove_file(&path);
     }
+    // large members: the extended block-entry table packs position / size / stored size / flag index into one bit string per
+    // file whose width grows with the archive (over 64 bits past about 2 MB): every width is built, read back, and each
+    // extended entry is compared with the classic block entry of the same file
+    for (li, big) in [1usize << 17, (1 << 18) + 3, (1 << 19) + 5, (1 << 20) + 1, (1 << 21) + 3, 3_000_000].into_iter().enumerate() {
+        if !ctx.thorough && li % 2 == 0 && li != 4 { continue; }
+        for ver in 0..4usize {
+            if !ctx.thorough && ver == 1 { continue; }
+            let mut rng = Rng::new(0xB16 + li as u64 * 7 + ver as u64);
+            let cfg = Cfg { ver, shift: 3, crc: li % 2 == 1, attrs: (li % 3) as u8, listfile: true, table_comp: false };
+            let files = vec![
+                F { name: "Large\\stored.bin".into(), data: content(&mut rng, big, 0), method: 0, enc: 0 },
+                F { name: "Large\\packed.bin".into(), data: content(&mut rng, big / 2 + 11, 3), method: flags::ZLIB, enc: (li % 3) as u8 },
+                F { name: "Large\\tiny.txt".into(), data: b"after the large members".to_vec(), method: flags::ZLIB, enc: 0 },
+                F { name: "Large\\empty.bin".into(), data: vec![], method: 0, enc: 0 },
+            ];
+            let desc = format!("large member {big} bytes ver=V{} crc={} attrs={}", ver + 1, cfg.crc, cfg.attrs);
+            let path = dir.path().join(format!("large{li}-{ver}.mpq"));
+            match std::panic::catch_unwind(|| build(&cfg, &files, &path)) {
+                Err(_) => { ctx.out.oracle(false, "build-panics", &desc); continue; }
+                Ok(Err(e)) => { ctx.out.oracle(false, "well-formed-content-rejected-by-builder", &format!("{desc}: {e}")); continue; }
+                Ok(Ok(())) => {}
+            }
+            ctx.out.stat(&format!("c01.large.V{}", ver + 1));
+            let mut a = match Archive::open(&path) { Ok(a) => a, Err(e) => { ctx.out.oracle(false, "built-archive-does-not-open", &format!("{desc}: {e}")); continue; } };
+            for f in &files {
+                match std::panic::catch_unwind(std::panic::AssertUnwindSafe(|| a.read_file(&f.name.to_uppercase().replace('\\', "/")))) {
+                    Err(_) => ctx.out.oracle(false, "read-panics", &format!("{desc} file={}", f.name)),
+                    Ok(Ok(d)) => { let ok = d == f.data; ctx.out.oracle(ok, "roundtrip-differs-large", &format!("{desc} file={}: got {} bytes", f.name, d.len())); if ok { ctx.out.nontrivial(desc.as_bytes()); } }
+                    Ok(Err(e)) => ctx.out.oracle(false, "read-error-large", &format!("{desc} file={}: {e}", f.name)),
+                }
+            }
+            if ver >= 2 {
+                match (a.het_table(), a.bet_table()) {
+                    (Some(het), Some(bet)) => for f in &files {
+                        let classic = a.find_file(&f.name).ok().flatten();
+                        match (het.find_file(&f.name), classic) {
+                            (Some(ix), Some(ci)) => {
+                                ctx.out.oracle(bet.verify_file_hash(ix, &f.name), "extended-table-name-hash-not-confirmed", &format!("{desc} file={} index={ix}", f.name));
+                                match bet.get_file_info(ix) {
+                                    Some(bi) => ctx.out.oracle(bi.file_pos == ci.file_pos && bi.file_size == ci.file_size && bi.compressed_size == ci.compressed_size && bi.flags == ci.flags,
+                                        "extended-table-entry-differs-from-block-entry", &format!("{desc} file={}: extended (pos {}, size {}, stored {}, flags {:#x}) vs classic (pos {}, size {}, stored {}, flags {:#x})",
+                                            f.name, bi.file_pos, bi.file_size, bi.compressed_size, bi.flags, ci.file_pos, ci.file_size, ci.compressed_size, ci.flags)),
+                                    None => ctx.out.oracle(false, "extended-table-entry-unreadable", &format!("{desc} file={} index={ix}", f.name)),
+                                }
+                            }
+                            _ => ctx.out.oracle(false, "extended-table-lookup-misses-added-file", &format!("{desc} file={}", f.name)),
+                        }
+                    },
+                    _ => ctx.out.oracle(false, "extended-tables-not-loaded", &desc),
+                }
+            }
+            drop(a);
+            let _ = std::fs::remove_file(&path);
+        }
+    }
     // many reads in one process: every archive stands alone, nothing the reader learnt or spent on earlier files
     // (budgets, caches) may make a later, well-formed file unreadable - more than 1 GiB is read back in total
     {
